@@ -24,7 +24,9 @@ def one(name):
     W = tempfile.mkdtemp(prefix="reseed.", dir="/var/tmp")
     repo = os.path.join(W, "repo")
     try:
-        subprocess.run(["git", "-C", "/repo", "worktree", "add", "-q", "--detach", repo, "HEAD"], check=True)
+        # VERIF_SEED_BASE: commit/branch of /repo the patches are applied to (default HEAD; a builder whose check needs a
+        # not yet integrated fix: commit names its own branch here)
+        subprocess.run(["git", "-C", "/repo", "worktree", "add", "-q", "--detach", repo, os.environ.get("VERIF_SEED_BASE", "HEAD")], check=True)
         p = subprocess.run(["git", "apply", os.path.join(d, "patch.diff")], cwd=repo, capture_output=True, text=True)
         if p.returncode != 0:
             res = {"applies": False, "detail": p.stderr[-300:]}
